@@ -83,6 +83,9 @@ def explicit_values(seed):
           # valid but unparsable verbatim settings (unknown code, value > 255, colon form): their lazily computed flags
           # are queried again and again by every rendering
           [['plain', 'abc'], ['apply', R['u'], 0, 2, True], ['apply', '[1;300', 1, 3, True], ['apply', '[4:3', 0, 1, True]],
+          # a base text that itself contains a complete SGR sequence (assign_str takes its text verbatim): a copy made by
+          # re-parsing the text is not a copy
+          [['plain', 'abcd'], ['apply', R['R'], 0, 3, True], ['assign', 'a\x1b[1mb']],
           # three settings on one character (outer two ending together) and the conflict pattern X, Y, X
           [['plain', 'abcd'], ['apply', R['R'], 0, 2, True], ['apply', R['W'], 0, 3, True], ['apply', R['U'], 0, 2, True]],
           [['plain', 'abcd'], ['apply', R['R'], 0, 4, True], ['apply', R['B'], 1, 4, True], ['apply', R['R'], 2, 3, True]]]
